@@ -279,3 +279,21 @@ package aws
 //@   invariant forall p :: 0 <= p && p < len(instances) ==> birth(instances[p]) < now
 //@   invariant forall p :: 0 <= p && p < len(instances) ==> instances[p] != nil
 //@   invariant [C18] forall i :: 0 <= i && i < #i ==> (forall j :: 0 <= j && j < len(acqIds(fleet, i)) ==> inIds(deref(acqIds(fleet, i)[j]), instances))
+
+// ---------------------------------------------------------------- aws.go: GetInstance (C20)
+
+// strings.Split: only the number of pieces matters here (a function of the two strings; at least one piece)
+//@ spec splitLen(s string, sep string) int
+//@ assume func strings.Split(s, sep) (r)
+//@   ensures len(r) == splitLen(s, sep) && len(r) >= 1 && (base(r) == nil || fresh(base(r)))
+// "aws:///<zone>/<id>": the instance id is the fifth piece, so there must be five
+//@ func providerIDToInstanceID(providerID) (id)
+//@   requires [C20] splitLen(providerID, "/") >= 5
+// DescribeInstances is a read; a successful answer is well-formed as far as it is dereferenced
+//@ iface github.com/aws/aws-sdk-go/service/ec2/ec2iface.EC2API.DescribeInstances(api, input) (out, err)
+//@   pure
+//@   ensures err == nil ==> out != nil && (forall i :: 0 <= i && i < len(out.Reservations) ==> out.Reservations[i] != nil)
+// C20: no provider ID, however malformed, makes the registration-lag lookup panic; an error is returned instead
+//@ func (*CloudProvider).GetInstance(c, node) (inst, err)
+//@   requires c != nil && c.ec2Service != nil && node != nil
+//@   ensures err == nil ==> inst != nil
